@@ -252,6 +252,9 @@ def main():
     T.name = 'routing:publish-delivers-iff-filter-matches'
     T.oracle = lambda ex, S: O.c01_publish(ex, S, T)
     run_transition(chk, prog, T, max_paths=200000)
+    # a filter change takes effect for later publishes (hidden parsed-filter state would break this)
+    import checks.c02 as c02
+    c02.grpc_mappings(chk, prog, only_chain=True)
     chk.samples = [{'shape': show(s), 'symbolic': 'names, values, NOT flags, operator, attribute map'} for s in shapes[:3] + shapes[-2:]]
     chk.finish()
 
